@@ -534,7 +534,7 @@ fn main() {
     rep.assume("trusted driver (the repository has no production sender for commit): on record_vote -> Prepared call commit() and only on Ok emit TxCommit; on Aborting call abort(); abort broadcasts are emitted by the real process_pending_aborts; participant-side unilateral timeouts are outside the quantifier and not in the alphabet");
     let mk = |ntx: u8, shards: u8, dups: u8, timeouts: u8, client_aborts: u8| (format!("{ntx}tx x {shards} shards dup<={dups} timeout<={timeouts} clientabort<={client_aborts}"), Cfg { ntx, shards, dups, timeouts, client_aborts, depth: 80 });
     let cfgs: Vec<(String, Cfg)> = if thorough {
-        vec![mk(2, 2, 1, 1, 1), mk(2, 2, 2, 1, 0), mk(3, 2, 0, 1, 0), mk(2, 3, 1, 1, 0)]
+        vec![mk(2, 2, 1, 1, 1), mk(2, 2, 2, 1, 0), mk(3, 2, 0, 1, 0), mk(2, 3, 0, 1, 0)]
     } else {
         vec![mk(2, 2, 1, 1, 0), mk(2, 2, 0, 1, 1), mk(2, 3, 1, 0, 0)]
     };
